@@ -89,3 +89,18 @@ Proof.
   intros Hb Hx Hc tl cap. rewrite (dict_decode_into_roundtrip xs d Hb Hx Hc).
   destruct (cap <? N.of_nat (length xs)); [destruct (cap =? 0); reflexivity|reflexivity].
 Qed.
+
+(* varintDictGetStats: the integer fields agree with the dictionary and with
+   the size predictor *)
+Theorem dict_stats_truth xs d : dict_build xs = BuildOk d ->
+  exists dictBytes indexBytes,
+    dict_get_stats xs = Some (N.of_nat (length (dict_values_of xs)), N.of_nat (length xs),
+                              dictBytes, indexBytes, dict_encoded_size xs, mul64 (N.of_nat (length xs)) 8) /\
+    dict_encoded_size xs = dictBytes + tagged_len (N.of_nat (length xs)) + indexBytes.
+Proof.
+  intro Hb. destruct (dict_build_ok xs d Hb) as (Hne & Hd & Hlen).
+  unfold dict_get_stats, dict_encoded_size. rewrite Hb, Hd.
+  unfold dict_encoded_size_with_dict. cbn [d_size d_values d_index_width].
+  replace (N.of_nat (length xs) =? 0) with false by (destruct xs; [congruence|cbn [length]; lia]).
+  eexists. eexists. split; reflexivity.
+Qed.
